@@ -200,7 +200,11 @@ class FuncEffects:
             if sym is not None and sym.kind == 'func':
                 return Val(not reach, False, reach)
             if sym is not None and sym.kind == 'import':
-                return Val(not reach, False, reach)  # external function (re.compile, indent, chain ...)
+                if f.id[:1].isupper() or f.id in ('defaultdict', 'deque', 'deepcopy', 'copy', 'namedtuple'):
+                    # external class (Counter, OrderedDict, ...): a new container adopting its arguments
+                    ef = all(v.elem_fresh for v in argvals) if argvals else True
+                    return Val(True, ef, frozenset(r for v in argvals for r in self.elem_of(v).reach))
+                return Val(not reach, False, reach)  # external function (re.compile, indent, ...)
             if f.id in sc or f.id in self.env:
                 return Val(not reach, False, reach)
             return Val(not reach, False, reach)
